@@ -41,7 +41,14 @@ fn table(rng: &mut Rng, upper: bool) -> (String, Vec<(String, Vec<(String, Strin
             for key in ["disconnect_no_target", "disconnect_timeout"] {
                 if rng.chance(5, 6) {
                     // plain text with multi-byte characters now and then (the length prefix counts bytes)
-                    let text = if rng.chance(1, 3) { format!("{key} für {loc} — nö №{} ✓", rng.below(1000)) } else { format!("{key} in {loc} #{}", rng.below(1000)) };
+                    let text = match rng.below(9) {
+                        0..=2 => format!("{key} für {loc} — nö №{} ✓", rng.below(1000)),
+                        // plain text that begins like something else: a bracketed prefix, a quote, a number
+                        3 => format!("[Passage] {key} in {loc} #{}", rng.below(1000)),
+                        4 => format!("\"{key}\" in {loc} #{}", rng.below(1000)),
+                        5 => format!("{} {key} in {loc}", rng.below(1000)),
+                        _ => format!("{key} in {loc} #{}", rng.below(1000)),
+                    };
                     // as a component: a styled part, or what people write by hand - lists that mix
                     // plain strings with styled parts, whole with fractional numbers, an entry left null
                     let message = match rng.below(8) {
@@ -392,6 +399,55 @@ fn filter_chain_histories(cli: &Cli, report: &mut Report) {
     }
 }
 
+/// The last packets of a routed connection behind a Keep Alive that the client has only taken half
+/// of when the selection completes (a client that reads slowly): the Keep Alive is completed, then
+/// the cookies and the one Transfer follow, whole and with the chosen target's address.
+fn half_written_keep_alive_histories(cli: &Cli, report: &mut Report) {
+    use vp_common::refcodec::Pkt;
+    let mut rng = Rng::stream(cli.seed, 38_000);
+    let claimed = mk::ident(&mut rng, "claimed");
+    let authed = mk::ident(&mut rng, "vouched");
+    let p = ScriptParams { intent: Intent::Login, address: "play.example.org", port: 25565, protocol: 770, claimed: &claimed, locale: "en_us", ping_payload: 0, client_info_delay: Duration::ZERO };
+    let plan = default_plan(&p, mk::secret16(&mut rng));
+    let targets = mk::targets(&mut rng, 3);
+    let mut adapters = mk::routing_adapters(Some((&authed, &[])), targets.clone());
+    adapters.strategy = StrategyScript::Position(2);
+    // the first Keep Alive is due 16 s into the connection; the selection completes 100 ms later
+    adapters.strategy_latency = Duration::from_millis(16_100);
+    let cfg = ServerCfg { secret: Some(b"half-written".to_vec()), ..Default::default() };
+    let base = default_scenario("half-written-keep-alive", plan, adapters, cfg);
+    let probe = run(&base);
+    let off: usize = probe.client.received.iter().take_while(|r| !matches!(r.pkt, Ok(Pkt::ConfKeepAliveOut { .. }))).map(|r| r.frame_len).sum();
+    let Some(ka) = probe.client.received.iter().find(|r| matches!(r.pkt, Ok(Pkt::ConfKeepAliveOut { .. }))) else {
+        report.inconclusive("half-written Keep Alive: the undisturbed run saw no Keep Alive");
+        return;
+    };
+    for k in 0..ka.frame_len {
+        let mut sc = base.clone();
+        // the client takes k bytes of the Keep Alive, then nothing for 300 ms
+        sc.write_plan = vp_sim::simnet::WritePlan { steps: vec![], stalls: vec![(off + k, Duration::from_millis(300))] };
+        let r = run(&sc);
+        let f = facts(&r);
+        report.eval(Some(&format!("half-written-keep-alive@{k}")));
+        report.count("routing completed while a Keep Alive was half written", 1);
+        let want = &targets[2];
+        let ok = f.transfers.len() == 1
+            && f.transfers[0].0 == want.address.ip().to_string()
+            && f.transfers[0].1 == want.address.port() as i32
+            && r.client.garbage.is_none()
+            && f.undecodable == 0
+            && r.client.incomplete_tail == 0
+            && matches!(r.client.received.last().map(|x| &x.pkt), Some(Ok(Pkt::Transfer { .. })));
+        if !ok {
+            report.violation(
+                "transfer-damaged-behind-half-written-keep-alive",
+                &format!("the selection completed while the client had taken {k} of {} bytes of a Keep Alive: the client did not end up with one whole Transfer to the chosen target as its last packet ({})", ka.frame_len, r.result.kind()),
+                witness(&sc, &r, json!({"keep_alive_bytes_taken_before_the_stall": k, "chosen": format!("{}", want.address), "transfers_seen": f.transfers.len(), "clientbound": r.client.names()})),
+            );
+        }
+    }
+}
+
 /// The localization adapter lives as long as the application and is shared by all connections: one
 /// instance is asked a long random sequence of (locale, message) questions - the same locale for
 /// different messages, the same message for different locales, in any order - and every answer is
@@ -452,6 +508,7 @@ pub fn run_prop(cli: &Cli) -> i32 {
     scenarios_into(cli, &mut report);
     adapter_histories(cli, &mut report);
     filter_chain_histories(cli, &mut report);
+    half_written_keep_alive_histories(cli, &mut report);
     report.finish()
 }
 
